@@ -344,26 +344,30 @@ prop('C17', level='other', units=['bycycle.cyclepoints.phase._merge_phases', 'by
      trusted=[EXTERNAL['interp']],
      assumptions=['np.interp (assumed library contract, see trusted base); real arithmetic for the interpolated values; the proved '
                   'cases take alternating extrema at least two samples apart, all inside the signal (the property\'s quantifier)'],
-     explanation='Proved for extrema_interpolated_phase WITHOUT midpoints (rises = decays = None), for every signal length and every '
-                 'alternating peak / trough placement with gaps >= 2 (either kind first, equal counts or one more of the first kind): '
-                 'the result has one value per sample, is exactly 0 at every peak and +-pi at every trough, finite and within '
-                 '[-pi, pi] on the whole span from the first to the last cyclepoint, NaN outside it, and result[i + 1] >= result[i] '
-                 'unless i + 1 is a trough - the clauses of the property, each a postcondition. The argument (about sixty small '
-                 'obligations per case, contracts/phase_eip.py): the alternating merge of the two index arrays is a strictly '
-                 'increasing knot sequence (induction); the scattered stores put finite anchors exactly on the knots (membership '
-                 'predicate of an integer-array store with witness); no sample between two consecutive knots survives the NaN mask, '
-                 'so consecutive knots are consecutive sample points of np.interp (counting function of the mask selection, three '
-                 'inductions); each branch series is exact at the knots, constant outside them and strictly monotone on each knot '
-                 'interval (assumed contract of np.interp); the precondition of _merge_phases holds at the call (finite, rises at the '
-                 'first knot); its first rising step and last non-zero step are the first and last knot. '
+     explanation='Proved for extrema_interpolated_phase, for every signal length, without midpoints (rises = decays = None) and with '
+                 'both kinds of midpoints (one per flank, anywhere in its closed flank - the postcondition of find_zerox - so a '
+                 'midpoint may sit on an extremum), for every alternating peak / trough placement with gaps >= 2 (either kind '
+                 'first, equal counts or one more of the first kind): the result has one value per sample, is exactly 0 at every '
+                 'peak and +-pi at every trough, -pi/2 at every rise and +pi/2 at every decay midpoint that does not sit on one of '
+                 'the two extrema of its flank, finite and within [-pi, pi] on the whole span from the first to the last '
+                 'cyclepoint, NaN outside it, and result[i + 1] >= result[i] unless i + 1 is a trough - the clauses of the '
+                 'property, each a postcondition. The argument (60 - 70 small obligations per case, contracts/phase_eip.py): the '
+                 'cyclepoints in temporal order are a non-decreasing slot sequence (induction), extrema strictly apart; the '
+                 'scattered stores put finite anchors exactly on the slots and the later store wins (membership predicate of an '
+                 'integer-array store with witness; moving the midpoint stores after the extremum stores fails here); no sample '
+                 'between two consecutive slots survives the NaN mask, so consecutive distinct slots are consecutive sample '
+                 'points of np.interp (counting function of the mask selection, three inductions); each branch series is exact at '
+                 'the slots, constant outside them and strictly monotone on each slot interval (assumed contract of np.interp); the '
+                 'precondition of _merge_phases holds at the call (finite, rises at the first slot); its first rising step and last '
+                 'non-zero step are the first and last cyclepoint. '
                  'Proved for _merge_phases (all lengths, all finite branch series that rise somewhere): the result has the input '
                  'length, equals the merged series (+pi branch where the -pi branch is about to decrease) from the first rising step '
                  'up to and including the sample the last non-zero step leads to, is NaN before and after, that first step rises, the '
                  'step into the last unmasked sample is non-zero and all later steps are zero; no StopIteration (explicit witnesses); '
                  'slice bounds in range (the negative computed slice start of the pinned tree fails these obligations). '
-                 'Bounded only: the calls WITH midpoints (+-pi/2 anchors, midpoints coinciding with extrema) - every alternating '
-                 'placement with gaps >= 2 on arrays up to length 9 (12) with every midpoint placement, plus corpus cyclepoints at '
-                 'several boundaries; the same job also evaluates the proved contract text on every real call without midpoints.')
+                 'Bounded only: calls with exactly one kind of midpoint, and extrema closer than two samples (outside the property). The '
+                 'bounded job (every alternating placement with gaps >= 2 on arrays up to length 9 (12) with every midpoint '
+                 'placement, plus corpus cyclepoints at several boundaries) also evaluates the proved contract text on every real call.')
 
 prop('C18', level='other', units=[DF + 'drop_samples_df', DF + 'limit_df', DF + 'split_samples_df', 'bycycle.utils.timeseries.limit_signal',
                                   DF + 'flatten_dfs'], jobs=['limit_df', 'limit_signal', 'samples_split_flatten', 'armed_limit'],
